@@ -255,7 +255,6 @@ func c15LongOutstanding(c *Ctx) {
 	c.Explore(sc)
 }
 
-
 // (c') sequences mixing generated and caller-supplied identifiers, all requests left outstanding.
 func c15Mixed(c *Ctx) {
 	c.Bound("mixed", "every sequence of 3 requests over {QoS 1 publish with generated id, QoS 1 publish with a caller-supplied free id next to an outstanding one (last-1, last+1, last+2), subscribe}; nothing is acknowledged; all identifiers of outstanding requests must be distinct")
